@@ -309,7 +309,7 @@ impl Prop for C06 {
     }
     fn run(&self, tier: Tier, _stage: usize, a: u64, b: u64, out: &mut WorkerOut) {
         for i in a..b {
-            out.idx = Some(i);
+            out.at(i);
             bfs(i as usize, tier.pick(4, 5), out);
         }
     }
